@@ -120,7 +120,10 @@ Definition not_clearly_pd (d : nat) (si : list (list float)) : bool :=
   | Some sq =>
       match qinverse d (sym_part d sq) with
       | None => true
-      | Some (_, piv) => existsb (fun k => Qle_bool (qnth piv k) (Qabs (qent sq k k) * (1 # 1099511627776))) (seq 0 d)
+      | Some (_, piv) =>
+          existsb (fun k => Qle_bool (qnth piv k) (Qabs (qent sq k k) * (1 # 1099511627776))) (seq 0 d) ||
+          (* the determinant (product of the pivots) underflows in binary64: the constructor's test det == 0 fires *)
+          Qle_bool (fold_left (fun a p => Qred (a * p)) piv 1) (1 # (2 ^ 1070))
       end
   end.
 
@@ -202,6 +205,72 @@ Definition check_negbin (tab : exptab) (r : float) xs g (res : option float) : b
   | _, _ => false
   end.
 
+
+(* ---------------- EM with normal components: single-step replay ---------------- *)
+(* hook record as in Corr.v: (iteration, log-weights, [mu; sigma] per component, likelihood, change).
+   Densities without the factor 1/sqrt(2 pi) (it cancels in the responsibilities):
+       f k l = exp(a_kl) / sigma_k,   a_kl = -((x_l - mu_k)^2 / (2 sigma_k^2)),
+   a_kl evaluated in binary64 exactly as the harness does (the table key), checked against its exact rational
+   value (|difference| <= 2^-40, so exp changes by less than 1e-12 relative); exp through the certified table.
+   inv_sqrt_2pi_q encloses 1/sqrt(2 pi) (ProofsCorr3.v).                                                     *)
+Definition inv_sqrt_2pi_q : Q := 3989422804014327 # 10000000000000000.
+
+Definition en_arg (x mu s : float) : float := (- (((x - mu) * (x - mu)) / (2 * (s * s))))%float.
+
+Definition en_dens (tab : exptab) (x mu s : float) : option Q :=
+  match F2Q x, F2Q mu, F2Q s, F2Q (en_arg x mu s), wq tab (en_arg x mu s) with
+  | Some xq, Some mq, Some sq, Some aq, Some e =>
+      if Qle_bool sq 0 then None else
+      let exact := - (((xq - mq) * (xq - mq)) / (2 * (sq * sq))) in
+      if Qle_bool (Qabs (exact - aq)) (1 # 1099511627776) then Some (rndQ (e / sq)) else None
+  | _, _, _, _, _ => None
+  end.
+
+Definition en_step (tab : exptab) (K : nat) (smin : float) (xs : list float) (h0 h1 : hook) : bool :=
+  let n := length xs in
+  match all_some (map (wq tab) (hk_lw h0)), all_some (map (wq tab) (hk_lw h1)), all_some (map F2Q xs),
+        all_some2 (map (fun p => map (fun x => en_dens tab x (nth 0 p nan) (nth 1 p nan)) xs) (hk_ps h0)),
+        wq tab (hk_lik h1), F2Q smin with
+  | Some pis0, Some pis1, Some xq, Some ftab, Some lik1, Some sminq =>
+      let pi := nthQ pis0 in
+      let f := fun k l => nthQ (nth k ftab []) l in
+      let c := fun _ : nat => 1%Q in
+      let rtab := map (fun k => map (fun l => g_resp NumQr K c pi f k l) (seq 0 n)) (seq 0 K) in
+      let r := fun k l => nthQ (nth k rtab []) l in
+      let rs := map (fun k => gsum NumQr n (r k)) (seq 0 K) in
+      let tot := gsum NumQr K (nthQ rs) in
+      let x := nthQ xq in
+      (* likelihood handed to hook 1 = likelihood of the state at hook 0 *)
+      closeQ tolQ lik1 (mul NumQr (g_lik NumQr n K pi f) (qpow inv_sqrt_2pi_q n)) &&
+      Nat.eqb (length pis1) K && Nat.eqb (length (hk_ps h1)) K &&
+      forallb (fun k =>
+        let rk := nthQ rs k in
+        let npi := div NumQr rk tot in
+        let m := div NumQr (gsum NumQr n (fun l => mul NumQr (r k l) (x l))) rk in
+        let q := div NumQr (gsum NumQr n (fun l => mul NumQr (mul NumQr (r k l) (x l)) (x l))) rk in
+        let var := q - m * m in
+        let scale := q + 1 in
+        match F2Q (nth 0 (nth k (hk_ps h1) []) nan), F2Q (nth 1 (nth k (hk_ps h1) []) nan) with
+        | Some gm, Some gs =>
+            (closeQ tolQ (nthQ pis1 k) npi || closeQ_abs (nthQ pis1 k) npi) &&
+            Qle_bool (Qabs (gm - m)) (tolQ * (Qabs m + 1)) &&
+            (* sigma: sqrt(var) where var >= SigmaMin^2, SigmaMin otherwise (either one within the tolerance band) *)
+            ((Qle_bool (sminq * sminq - tolQ * scale) var && Qle_bool (Qabs (gs * gs - var)) (tolQ * scale)) ||
+             (Qle_bool var (sminq * sminq + tolQ * scale) && Qeq_bool gs sminq))
+        | _, _ => false
+        end) (seq 0 K)
+  | _, _, _, _, _, _ => false
+  end.
+
+Fixpoint en_steps tab K smin xs (hs : list hook) : bool :=
+  match hs with
+  | h0 :: ((h1 :: _) as r) => en_step tab K smin xs h0 h1 && en_steps tab K smin xs r
+  | _ => true
+  end.
+
+Definition check_em_normal tab K smin xs eps max_steps (hs : list hook) : bool :=
+  en_steps tab K smin xs hs && check_driver eps max_steps hs && check_monotone (map hk_lik (tl hs)).
+
 (* ---------------- cases ---------------- *)
 Inductive case3 :=
 | C3VNormal (pert : bool) (d : nat) (smin : float) (xs : list (list float)) (g : option (list float))
@@ -211,7 +280,8 @@ Inductive case3 :=
 | C3Siid (pert : bool) (comps : list (Z * float)) (xs : list (list float)) (g : option (list float))
          (res : option (list (list float)))
 | C3NegBin (r : float) (xs : list float) (g : option (list float)) (res : option float)
-| C3Logreg.     (* decided by the gradient certificate file of the shard (Coq-Interval) *)
+| C3Logreg      (* decided by the gradient certificate file of the shard (Coq-Interval) *)
+| C3EmNormal (K : nat) (smin : float) (xs : list float) (eps : float) (max_steps : option nat) (trace : list hook).
 
 Definition check3 (tab : exptab) (c : case3) : bool :=
   match c with
@@ -220,6 +290,7 @@ Definition check3 (tab : exptab) (c : case3) : bool :=
   | C3Siid pert comps xs g res => check_siid tab pert comps xs g res
   | C3NegBin r xs g res => check_negbin tab r xs g res
   | C3Logreg => true
+  | C3EmNormal K smin xs eps ms tr => check_em_normal tab K smin xs eps ms tr
   end.
 
 Definition mism3 (tab : exptab) (cs : list case3) : list nat := mismatches (check3 tab) cs.
